@@ -63,6 +63,7 @@ type gop struct {
 	hid    int
 	iid    int
 	tok    string // hex or "-"
+	delay  int    // data/nack: the first timer cancel made while the packet is processed takes this many ms (0 = none)
 	auto   bool   // appended by the harness (run-down of all timers), not part of the generated history
 }
 
@@ -126,6 +127,9 @@ func (g gop) String() string {
 		}
 		return fmt.Sprintf("express n=%s cbp=%s dig=%s life=%s nest=%s", nameTxt(g.name), b01(g.cbp), dig, lifeTxt(g.life), nest)
 	case "data":
+		if g.delay > 0 {
+			return fmt.Sprintf("data n=%s cid=%d delay=%d", nameTxt(g.name), g.cid, g.delay)
+		}
 		return fmt.Sprintf("data n=%s cid=%d", nameTxt(g.name), g.cid)
 	case "nack":
 		dig := "-"
@@ -133,6 +137,9 @@ func (g gop) String() string {
 			dig = "d:" + nameTxt(g.digNm) + ":" + strconv.Itoa(g.digCid)
 		} else if g.digK == 'b' {
 			dig = "b:" + strconv.Itoa(g.digCid)
+		}
+		if g.delay > 0 {
+			return fmt.Sprintf("nack n=%s dig=%s reason=%d delay=%d", nameTxt(g.name), dig, g.reason, g.delay)
 		}
 		return fmt.Sprintf("nack n=%s dig=%s reason=%d", nameTxt(g.name), dig, g.reason)
 	case "adv":
@@ -210,6 +217,8 @@ func parseGop(line string) (gop, bool) {
 			g.tok = v
 		case "auto":
 			g.auto = v == "1"
+		case "delay":
+			g.delay, _ = strconv.Atoi(v)
 		}
 	}
 	switch g.kind {
@@ -243,26 +252,46 @@ type world struct {
 	face  *lockedFace
 	start time.Time
 
-	exprMu     sync.Mutex
-	mu         sync.Mutex
-	cbs        []string // callback observations of the current top-level op
-	nested     []string // nested op lines of the current top-level op
-	outs       []string
-	nextPid    int
-	pidWire    map[int][]byte
-	probe      []int
-	intern     map[string]int
-	trieIntern map[string]int
-	nextKey    int
-	nextIid    int
-	replies    map[int]ndn.WireReplyFunc
-	iidWire    map[int][]byte
-	iidTok     map[int]string
-	curHid     int
-	curIid     int
+	clock       func() time.Time
+	cancelDelay atomic.Int64
+	exprMu      sync.Mutex
+	mu          sync.Mutex
+	cbs         []string // callback observations of the current top-level op
+	nested      []string // nested op lines of the current top-level op
+	outs        []string
+	nextPid     int
+	pidWire     map[int][]byte
+	probe       []int
+	intern      map[string]int
+	trieIntern  map[string]int
+	nextKey     int
+	nextIid     int
+	replies     map[int]ndn.WireReplyFunc
+	iidWire     map[int][]byte
+	iidTok      map[int]string
+	curHid      int
+	curIid      int
 }
 
-func (w *world) nowMs() int64 { return time.Since(w.start).Milliseconds() }
+func (w *world) nowMs() int64 { return w.clock().Sub(w.start).Milliseconds() }
+
+// delayTimer is the engine's real timer; the cancel function of a scheduled event can be made to take (virtual) time once:
+// that is how a run inside a synctest bubble gets "the timeout event fires while onData/onNack holds the PIT lock and
+// then cancels it" — the schedule in which timer.Stop() reports that the event has already started.
+type delayTimer struct {
+	ndn.Timer
+	w *world
+}
+
+func (d delayTimer) Schedule(dur time.Duration, f func()) func() error {
+	cancel := d.Timer.Schedule(dur, f)
+	return func() error {
+		if ms := d.w.cancelDelay.Swap(0); ms > 0 {
+			time.Sleep(time.Duration(ms) * time.Millisecond)
+		}
+		return cancel()
+	}
+}
 
 // key interns a component by its identity (TLV bytes). The trie dumps report the engine's own keys; trieIntern maps those
 // back to ids, so a trie whose keys conflate different components shows up as a divergence, and names in callbacks
@@ -279,14 +308,23 @@ func (w *world) key(c enc.Component) int {
 	return k
 }
 
-// Component ids 3 and 4 are two different components with the same URI form "seg=5" (a segment number in shortest and
-// in non-shortest encoding); the others are generic components.
+// The component universe. Besides plain generic components it holds components that a sloppy trie key would conflate:
+//
+//	2, 3  segment numbers 05 and 00 05: same URI form "seg=5";
+//	4     a generic component whose VALUE is the TLV encoding (32 01 05) of component 2;
+//	6     a generic component with an empty value; 7 a generic component whose value is the TLV of component 1 ("a").
 func compOf(k int) enc.Component {
 	switch k {
-	case 3:
+	case 2:
 		return enc.Component{Typ: enc.TypeSegmentNameComponent, Val: []byte{5}}
-	case 4:
+	case 3:
 		return enc.Component{Typ: enc.TypeSegmentNameComponent, Val: []byte{0, 5}}
+	case 4:
+		return enc.Component{Typ: enc.TypeGenericNameComponent, Val: []byte{0x32, 0x01, 0x05}}
+	case 6:
+		return enc.Component{Typ: enc.TypeGenericNameComponent, Val: []byte{}}
+	case 7:
+		return enc.Component{Typ: enc.TypeGenericNameComponent, Val: []byte{0x08, 0x01, 'a'}}
 	}
 	return enc.NewStringComponent(enc.TypeGenericNameComponent, genericComps[k])
 }
@@ -542,9 +580,13 @@ func canonNodes(n int, get func(int) ([]int, string)) string {
 var progress atomic.Int64
 
 // runCase executes one case (list of gops) in a fresh bubble and returns the trace lines.
-func runCase(t *testing.T, ops []gop) []string {
+// runCase executes one case (list of gops) and returns the trace lines.
+//
+//	cfg "real":  the engine over the real basic.Timer inside a fresh synctest bubble (virtual clock);
+//	cfg "dummy": the engine over dummy.Timer driven by MoveForward, as the repository's own tests do (no bubble).
+func runCase(t *testing.T, ops []gop, cfg string) []string {
 	var lines []string
-	synctest.Test(t, func(t *testing.T) {
+	body := func(t *testing.T) {
 		w := &world{pidWire: map[int][]byte{}, intern: map[string]int{}, trieIntern: map[string]int{}, nextKey: 100, replies: map[int]ndn.WireReplyFunc{},
 			iidWire: map[int][]byte{}, iidTok: map[int]string{}}
 		for k := 1; k < len(genericComps); k++ {
@@ -552,13 +594,25 @@ func runCase(t *testing.T, ops []gop) []string {
 			w.trieIntern[basic.VerifTrieKey(compOf(k))] = k
 		}
 		w.face = &lockedFace{DummyFace: dummy.NewDummyFace()}
-		timer := basic.NewTimer()
+		var timer ndn.Timer
+		advance := func(ms int) { time.Sleep(time.Duration(ms) * time.Millisecond) }
+		wait := synctest.Wait
+		if cfg == "dummy" {
+			dt := dummy.NewTimer()
+			timer = dt
+			w.clock = dt.Now
+			advance = func(ms int) { dt.MoveForward(time.Duration(ms) * time.Millisecond) }
+			wait = func() {}
+		} else {
+			timer = delayTimer{Timer: basic.NewTimer(), w: w}
+			w.clock = time.Now
+		}
 		passAll := func(enc.Name, enc.Wire, ndn.Signature) bool { return true }
 		w.eng = basic.NewEngine(w.face, timer, sec.NewSha256IntSigner(timer), passAll)
 		if err := w.eng.Start(); err != nil {
 			t.Fatal(err)
 		}
-		w.start = time.Now()
+		w.start = w.clock()
 		emit := func(s string) { lines = append(lines, s) }
 		for _, g := range ops {
 			progress.Add(1)
@@ -574,8 +628,17 @@ func runCase(t *testing.T, ops []gop) []string {
 				sum := sha256.Sum256(wire)
 				dd := enc.Component{Typ: enc.TypeImplicitSha256DigestComponent, Val: sum[:]}
 				opTxt = fmt.Sprintf("data %s %d", w.keysOf(mkName(g.name)), w.key(dd))
+				t0 := w.nowMs()
+				if cfg != "dummy" {
+					w.cancelDelay.Store(int64(g.delay))
+				}
 				if err := w.face.FeedPacket(wire); err != nil {
 					w.outs = append(w.outs, "ret err")
+				}
+				w.cancelDelay.Store(0)
+				wait()
+				if el := w.nowMs() - t0; el > 0 { // a cancel took time: timers fired while the PIT lock was held
+					opTxt = fmt.Sprintf("datafire %s %d %d", w.keysOf(mkName(g.name)), w.key(dd), el)
 				}
 			case "nack":
 				fn := mkName(g.name)
@@ -591,12 +654,21 @@ func runCase(t *testing.T, ops []gop) []string {
 				e := spec.PacketEncoder{}
 				e.Init(pkt)
 				opTxt = fmt.Sprintf("nack %s %d", w.keysOf(fn), g.reason)
+				t0 := w.nowMs()
+				if cfg != "dummy" {
+					w.cancelDelay.Store(int64(g.delay))
+				}
 				if err := w.face.FeedPacket(e.Encode(pkt).Join()); err != nil {
 					w.outs = append(w.outs, "ret err")
 				}
+				w.cancelDelay.Store(0)
+				wait()
+				if el := w.nowMs() - t0; el > 0 {
+					opTxt = fmt.Sprintf("nackfire %s %d %d", w.keysOf(fn), g.reason, el)
+				}
 			case "adv":
 				opTxt = fmt.Sprintf("adv %d", g.ms)
-				time.Sleep(time.Duration(g.ms) * time.Millisecond)
+				advance(g.ms)
 			case "attach":
 				opTxt = fmt.Sprintf("attach %s %d", w.keysOf(mkName(g.name)), g.hid)
 				if err := w.eng.AttachHandler(mkName(g.name), w.handler(g.hid)); err != nil {
@@ -672,7 +744,7 @@ func runCase(t *testing.T, ops []gop) []string {
 					w.outs = append(w.outs, "ret ok")
 				}
 			}
-			synctest.Wait()
+			wait()
 			w.drain()
 			emit("op " + opTxt + " @" + strconv.FormatInt(w.nowMs(), 10))
 			w.mu.Lock()
@@ -710,7 +782,12 @@ func runCase(t *testing.T, ops []gop) []string {
 			emit("fib " + w.fibDump())
 		}
 		_ = w.eng.Stop()
-	})
+	}
+	if cfg == "dummy" {
+		body(t)
+	} else {
+		synctest.Test(t, body)
+	}
 	return lines
 }
 
@@ -734,6 +811,7 @@ type genr struct {
 	r      *rand.Rand
 	nested bool
 	long   bool
+	fire   bool
 }
 
 func (g *genr) pick(xs []int) int { return xs[g.r.Intn(len(xs))] }
@@ -755,8 +833,39 @@ func (g *genr) name(alpha, maxDepth int) []int {
 var lifetimes = []int{0, 1, 3, 5, 5, 8, 10, 10, 12, 15, 20, 20, 30, 50, 100, -1}
 var advances = []int{0, 1, 1, 2, 4, 5, 5, 6, 9, 10, 10, 11, 14, 15, 16, 20, 25, 30, 60, 110}
 
+// genFireCase: the timeout events of some pending Interests fire while the Data / Nack that resolves them is being
+// processed under the PIT lock (the first cancel takes `delay` ms and ends exactly at the common fire instant).
+func (g *genr) genFireCase() []gop {
+	margin := int(basic.VerifConstants()["TimeoutMargin"] / 1000000)
+	life := g.pick([]int{5, 20, 50, 100})
+	delay := 1 + g.r.Intn(4)
+	nm := g.name(2, 3)
+	var ops []gop
+	k := 1 + g.r.Intn(3)
+	for i := 0; i < k; i++ {
+		ops = append(ops, gop{kind: "express", name: nm, cbp: g.r.Intn(2) == 0, digK: '-', life: life})
+	}
+	if len(nm) > 1 && g.r.Intn(2) == 0 { // a shorter name that the packet does not resolve, same fire instant
+		ops = append(ops, gop{kind: "express", name: nm[:len(nm)-1], cbp: false, digK: '-', life: life})
+	}
+	if g.r.Intn(2) == 0 { // an unrelated long-lived one
+		ops = append(ops, gop{kind: "express", name: append(append([]int{}, nm...), 5), cbp: false, digK: '-', life: life + 500})
+	}
+	ops = append(ops, gop{kind: "adv", ms: life + margin - delay})
+	if g.r.Intn(3) == 0 {
+		ops = append(ops, gop{kind: "nack", name: nm, digK: '-', reason: 150, delay: delay})
+	} else {
+		ops = append(ops, gop{kind: "data", name: nm, cid: g.r.Intn(3), delay: delay})
+	}
+	ops = append(ops, gop{kind: "adv", ms: g.pick([]int{0, 1, 10})}, gop{kind: "data", name: nm, cid: 1})
+	return ops
+}
+
 func (g *genr) genCase() []gop {
-	alpha := 1 + g.r.Intn(3)
+	if g.fire {
+		return g.genFireCase()
+	}
+	alpha := g.pick([]int{1, 2, 3, 3, 4, 6}) // components 1..alpha+1 of the universe (see compOf)
 	depth := 1 + g.r.Intn(4)
 	nops := 4 + g.r.Intn(22)
 	if g.long {
@@ -1027,6 +1136,7 @@ func TestTrace(t *testing.T) {
 	out := bufio.NewWriter(f)
 	defer out.Flush()
 
+	cfg := os.Getenv("VERIF_CFG") // real (default) | dummy
 	var cases [][]gop
 	var titles []string
 	if p := os.Getenv("VERIF_OPS"); p != "" {
@@ -1049,7 +1159,7 @@ func TestTrace(t *testing.T) {
 			}
 		}
 		mode := os.Getenv("VERIF_MODE")
-		g := &genr{r: rand.New(rand.NewSource(seed)), nested: mode == "nested" || mode == "long", long: mode == "long"}
+		g := &genr{r: rand.New(rand.NewSource(seed)), nested: mode == "nested" || mode == "long", long: mode == "long", fire: mode == "fire"}
 		for i := 0; i < n; i++ {
 			cases = append(cases, g.genCase())
 			titles = append(titles, fmt.Sprintf("gen-%d-%d", seed, i))
@@ -1076,7 +1186,7 @@ func TestTrace(t *testing.T) {
 			fmt.Fprintf(out, "gop %s\n", g.String())
 		}
 		out.Flush()
-		for _, l := range runCase(t, ops) {
+		for _, l := range runCase(t, ops, cfg) {
 			fmt.Fprintln(out, l)
 		}
 		fmt.Fprintf(out, "end\n")
@@ -1095,4 +1205,42 @@ func TestConsts(t *testing.T) {
 	for _, k := range names {
 		fmt.Printf("CONST %s %d\n", k, c[k])
 	}
+}
+
+// TestKeys: the trie's key function must be injective on components (Keys.v: then equal key paths are equal names). It is
+// checked on an adversarial set: generic values equal to TLV encodings of typed/generic components, values that are
+// prefixes/suffixes of each other, empty values, type numbers at the 1/3/5-byte TL boundaries, equal URI forms.
+func TestKeys(t *testing.T) {
+	var set []enc.Component
+	vals := [][]byte{{}, {0}, {5}, {0, 5}, {0, 0, 5}, {'a'}, {'a', 'b'}, {'b'}, {0x08, 0x01, 'a'}, {0x32, 0x01, 0x05}, {0x01, 'a'}, {0xfd, 0x00, 0xfd}, {0xff}}
+	typs := []enc.TLNum{1, 2, 8, 0x32, 0x34, 0x36, 0x38, 0x3a, 0x20, 252, 253, 254, 255, 256, 65535, 65536, 1 << 32}
+	for _, ty := range typs {
+		for _, v := range vals {
+			set = append(set, enc.Component{Typ: ty, Val: v})
+		}
+	}
+	// generic components whose value is the encoding of another component of the set, and concatenations
+	n0 := len(set)
+	for i := 0; i < n0; i += 7 {
+		set = append(set, enc.Component{Typ: enc.TypeGenericNameComponent, Val: set[i].Bytes()})
+		set = append(set, enc.Component{Typ: enc.TypeGenericNameComponent, Val: append(set[i].Bytes(), set[(i+3)%n0].Bytes()...)})
+	}
+	for k := 1; k < len(genericComps); k++ {
+		set = append(set, compOf(k))
+	}
+	seen := map[string]enc.Component{}
+	bad := 0
+	for _, c := range set {
+		k := basic.VerifTrieKey(c)
+		if o, ok := seen[k]; ok && !(o.Typ == c.Typ && string(o.Val) == string(c.Val)) {
+			fmt.Printf("KEYCOLLISION %d:%x %d:%x key=%x\n", uint64(o.Typ), o.Val, uint64(c.Typ), c.Val, k)
+			bad++
+			if bad > 5 {
+				break
+			}
+		} else {
+			seen[k] = c
+		}
+	}
+	fmt.Printf("KEYS %d components %d collisions\n", len(set), bad)
 }
